@@ -8,7 +8,8 @@ import sys
 from pathlib import Path
 V = Path(__file__).resolve().parent.parent
 suffix, props = sys.argv[1], sys.argv[2:]
-tmpl = Path("/tmp/seed/prompt_tmpl.txt").read_text()
+_t = Path("/tmp/seed/prompt_tmpl.txt")
+tmpl = (_t if _t.exists() else Path(__file__).with_name("seed_prompt_tmpl.txt")).read_text()
 texts = {}
 for ln in (V / "properties.jsonl").read_text().splitlines():
     if ln.strip():
